@@ -720,10 +720,11 @@ impl EliasFanoBuilder {
     /// Creates a builder for an [`EliasFano`] containing
     /// `n` numbers smaller than or equal to `u`.
     pub fn new(n: usize, u: usize) -> Self {
-        // For n = 0 the ratio is infinite, and for n = 1 and u close to
-        // usize::MAX the rounding of the conversion to f64 gives 64
-        let l = if n > 0 && u >= n {
-            ((u as f64 / n as f64).log2().floor() as usize).min(usize::BITS as usize - 1)
+        // An empty sequence is treated as a singleton, as otherwise the ratio
+        // would be infinite; moreover, for n = 1 and u close to usize::MAX the
+        // rounding of the conversion to f64 gives 64
+        let l = if u >= n.max(1) {
+            ((u as f64 / n.max(1) as f64).log2().floor() as usize).min(usize::BITS as usize - 1)
         } else {
             0
         };
@@ -883,10 +884,11 @@ impl EliasFanoConcurrentBuilder {
     /// Creates a concurrent builder for a sequence containing `n` nonnegative
     /// numbers smaller than or equal to `u`.
     pub fn new(n: usize, u: usize) -> Self {
-        // For n = 0 the ratio is infinite, and for n = 1 and u close to
-        // usize::MAX the rounding of the conversion to f64 gives 64
-        let l = if n > 0 && u >= n {
-            ((u as f64 / n as f64).log2().floor() as usize).min(usize::BITS as usize - 1)
+        // An empty sequence is treated as a singleton, as otherwise the ratio
+        // would be infinite; moreover, for n = 1 and u close to usize::MAX the
+        // rounding of the conversion to f64 gives 64
+        let l = if u >= n.max(1) {
+            ((u as f64 / n.max(1) as f64).log2().floor() as usize).min(usize::BITS as usize - 1)
         } else {
             0
         };
